@@ -121,7 +121,7 @@ func (l *Layout) Expected(start Pos, startUnit int) []ExpTx {
 	}
 	for ui := startUnit; ui < len(h.Units); ui++ {
 		u := &h.Units[ui]
-		if u.Kind == URotate {
+		if u.Kind == URotate || u.Kind == UFileEnd {
 			pos = Pos{u.NextFile, 4}
 			continue
 		}
